@@ -350,42 +350,68 @@ Proof.
   cbn [xvalue]. destruct (value (iter_ctx (Some it) rho) e) as [v ds]. exists v. reflexivity.
 Qed.
 
-(* ---- findings: false of the faithful model ------------------------------------------------------- *)
+(* ---- marks through static children and remaining bodies; findings -------------------------------- *)
 Definition m1 : marks := [1].
 Definition str_a : list Z := [97].
 Definition str_b : list Z := [98].
 Definition str_l : list Z := [108].
 Definition str_x : list Z := [120].
 
-(* §9 #18: a static block nested in the content of a generated block does not inherit the
-   for_each marks: neither its body's value marks nor its attribute values have them. *)
-(* the witness: content of a block generated from a for_each marked m1, at the element x,
-   containing the static block  b { x = "x" } *)
+(* Everything Content exposes of an expandBody carries the body's value marks (with no
+   marks the statement is trivial: with_marks v [] = v). *)
+Lemma prepared_attrs_marked eb raw a rho :
+  In a (prepare_attributes eb raw) -> exists v, fst (xvalue rho (snd a)) = with_marks v (eb_marks eb).
+Proof.
+  unfold prepare_attributes.
+  destruct (is_nil (eb_hattrs eb) && is_none (eb_iter eb) && is_nil (eb_marks eb)) eqn:E.
+  - apply andb_true_iff in E as [_ Em]. destruct (eb_marks eb); [|discriminate Em].
+    intro H. apply in_map_iff in H as (x & <- & _). cbn [snd xvalue].
+    exists (fst (value rho (snd x))). reflexivity.
+  - intro H. apply in_flat_map in H as (x & _ & Hx).
+    destruct (str_mem (fst x) (eb_hattrs eb)); [destruct Hx|].
+    destruct (eb_iter eb) as [i|].
+    + destruct Hx as [<-|[]]. cbn [snd xvalue].
+      destruct (value (iter_ctx (Some i) rho) (snd x)) as [v ds]. exists v. reflexivity.
+    + destruct (eb_marks eb) as [|m0 mr] eqn:Em; cbn [is_nil] in Hx; destruct Hx as [<-|[]]; cbn [snd xvalue].
+      * exists (fst (value rho (snd x))). reflexivity.
+      * destruct (value rho (snd x)) as [v ds]. exists v. reflexivity.
+Qed.
+
+Theorem content_attrs_marked s eb a rho :
+  In a (xc_attrs (eb_content s eb)) -> exists v, fst (xvalue rho (snd a)) = with_marks v (eb_marks eb).
+Proof. rewrite eb_content_attrs. apply prepared_attrs_marked. Qed.
+
+(* DESIGN §9 #18, repaired by "static blocks nested in dynamic block content must inherit
+   the for_each marks": a static block nested in the content of a generated block inherits
+   the marks — as its body's value marks and on every attribute value it exposes. *)
+Theorem static_child_inherits_marks :
+  forall eb s t ls body blk,
+    In blk (item_blocks eb s (DBlock t ls body)) ->
+    xb_marks (xb_body blk) = eb_marks eb
+    /\ (forall s' a rho, In a (xc_attrs (xb_content s' (xb_body blk))) ->
+          exists v, fst (xvalue rho (snd a)) = with_marks v (eb_marks eb)).
+Proof.
+  intros eb s t ls body blk H. unfold item_blocks in H.
+  destruct (native_block_ok (extend_schema eb s) (DBlock t ls body)); [|destruct H].
+  cbn [expand_block1] in H.
+  destruct (existsb (fun h : list Z * Z => str_eqb t (fst h)) (eb_hblocks eb)); [destruct H|].
+  destruct H as [<-|[]]. cbn [xb_body xb_marks fst]. split; [reflexivity|].
+  intros s' a rho Ha. cbn [xb_content] in Ha.
+  apply (content_attrs_marked s' _ a rho) in Ha. exact Ha.
+Qed.
+
+(* the shape that used to lose the marks: content of a block generated from a for_each
+   marked m1, at the element x, containing the static block  b { x = "x" } *)
 Definition sc_eb : ebody := mkEB [] [] (Some (mkIter str_a (VStr str_x) (VStr str_x) [])) m1 [] [].
 Definition sc_s : schema1 := mkSchema [] [(str_b, 0)].
 Definition sc_body : dbody := [DAttr str_x (ELit (VStr str_x))].
-Definition sc_blk : xblock := mkXB str_b [] (XE (expand_child sc_eb sc_body (eb_iter sc_eb) [])).
-
-Definition static_child_inherits_marks : Prop :=
-  forall eb s t ls body blk,
-    In blk (item_blocks eb s (DBlock t ls body)) -> xb_marks (xb_body blk) = eb_marks eb.
-Theorem static_child_inherits_marks_refuted :
-  exists eb s t ls body blk rho,
-    In blk (item_blocks eb s (DBlock t ls body))
-    /\ eb_marks eb = m1
-    /\ xb_marks (xb_body blk) = []
-    /\ map (fun a => fst (xvalue rho (snd a)))
-           (xc_attrs (xb_content (mkSchema [(str_x, false)] []) (xb_body blk))) = [VStr str_x].
-Proof.
-  exists sc_eb, sc_s, str_b, [], sc_body, sc_blk, [].
-  split; [left; reflexivity|]. repeat split; vm_compute; reflexivity.
-Qed.
-
-Theorem static_child_inherits_marks_false : ~ static_child_inherits_marks.
-Proof.
-  intro H. specialize (H sc_eb sc_s str_b [] sc_body sc_blk (or_introl eq_refl)).
-  vm_compute in H. discriminate H.
-Qed.
+Example static_child_inherits_marks_example :
+  exists blk,
+    item_blocks sc_eb sc_s (DBlock str_b [] sc_body) = [blk]
+    /\ xb_marks (xb_body blk) = m1
+    /\ map (fun a => fst (xvalue [] (snd a)))
+           (xc_attrs (xb_content (mkSchema [(str_x, false)] []) (xb_body blk))) = [VMark m1 (VStr str_x)].
+Proof. eexists. split; [reflexivity|]. split; vm_compute; reflexivity. Qed.
 
 (* §9 #9: a marked EMPTY for_each leaves no trace: what the expanded body exposes is the
    same as with the unmarked empty collection. *)
@@ -403,20 +429,34 @@ Proof.
   split; [reflexivity|split; [reflexivity|split; [reflexivity|vm_compute; reflexivity]]].
 Qed.
 
-(* §9 #10: the remaining body returned by PartialContent forgets valueMarks: an attribute
-   left for the second step evaluates unmarked, whereas Content in one step marks it. *)
-Theorem partial_remain_keeps_marks_refuted :
-  exists eb s1' s2 rho,
-    eb_marks eb = m1
-    /\ eb_marks (snd (eb_partial_content s1' eb)) = []
-    /\ map (fun a => fst (xvalue rho (snd a))) (xc_attrs (eb_content s2 eb)) = [VMark m1 (VStr str_x)]
-    /\ map (fun a => fst (xvalue rho (snd a)))
-           (xc_attrs (eb_content s2 (snd (eb_partial_content s1' eb)))) = [VStr str_x].
+(* DESIGN §9 #10, repaired by "the remaining body of a dynamic block's content must keep
+   the for_each marks": the body PartialContent returns for the remaining items keeps the
+   value marks (of either kind of body), so an attribute left for a second step evaluates
+   with the marks exactly as under a one-step Content. *)
+Theorem partial_remain_keeps_marks :
+  (forall s eb, eb_marks (snd (eb_partial_content s eb)) = eb_marks eb)
+  /\ (forall s x, xb_marks (snd (xb_partial_content s x)) = xb_marks x)
+  /\ (forall s s2 eb a rho, In a (xc_attrs (eb_content s2 (snd (eb_partial_content s eb)))) ->
+         exists v, fst (xvalue rho (snd a)) = with_marks v (eb_marks eb)).
 Proof.
-  exists (mkEB [DAttr str_a (ELit (VStr str_x))] [] None m1 [] []),
-         (mkSchema [] []), (mkSchema [(str_a, false)] []), [].
-  split; [reflexivity|split; [reflexivity|split; vm_compute; reflexivity]].
+  assert (H1 : forall s eb, eb_marks (snd (eb_partial_content s eb)) = eb_marks eb).
+  { intros s eb. unfold eb_partial_content, native_partial, expand_blocks, xres_concat. reflexivity. }
+  split; [exact H1|split].
+  - intros s x. induction x as [eb|t IH m]; cbn [xb_partial_content].
+    + destruct (eb_partial_content s eb) as [c r] eqn:E. cbn [snd xb_marks].
+      rewrite <- (H1 s eb), E. reflexivity.
+    + destruct (xb_partial_content s t) as [c r]. cbn [snd xb_marks] in *. exact IH.
+  - intros s s2 eb a rho Ha. rewrite <- (H1 s eb). apply (content_attrs_marked s2 _ a rho Ha).
 Qed.
+
+Example partial_remain_keeps_marks_example :
+  let eb := mkEB [DAttr str_a (ELit (VStr str_x))] [] None m1 [] [] in
+  let s1' := mkSchema [] [] in
+  let s2 := mkSchema [(str_a, false)] [] in
+  map (fun a => fst (xvalue [] (snd a))) (xc_attrs (eb_content s2 eb)) = [VMark m1 (VStr str_x)]
+  /\ map (fun a => fst (xvalue [] (snd a)))
+         (xc_attrs (eb_content s2 (snd (eb_partial_content s1' eb)))) = [VMark m1 (VStr str_x)].
+Proof. split; vm_compute; reflexivity. Qed.
 
 (* A generated block whose body is read with JustAttributes (hcldec.BlockAttrsSpec): since
    the fix "JustAttributes inside dynamic block content must see the block's iterator" the
@@ -501,10 +541,10 @@ Print Assumptions content_attrs_wrapped.
 Print Assumptions iterator_scoping_lookup.
 Print Assumptions iterator_scoping.
 Print Assumptions generated_block_marks.
-Print Assumptions static_child_inherits_marks_refuted.
-Print Assumptions static_child_inherits_marks_false.
+Print Assumptions static_child_inherits_marks.
+Print Assumptions content_attrs_marked.
 Print Assumptions marked_empty_for_each_leaves_trace_refuted.
-Print Assumptions partial_remain_keeps_marks_refuted.
+Print Assumptions partial_remain_keeps_marks.
 Print Assumptions just_attributes_sees_iterator.
 Print Assumptions expand_equals_unroll_without_conforms_refuted.
 Print Assumptions known_for_each_needs_single_mark_blocks.
